@@ -9,6 +9,7 @@ For every private-selection primitive (found as the function feeding `choice(n, 
   stable              the probabilities are softmax(.) or exp of a shift-normalised quantity (E3): well defined for huge scores
   key-aligned         in dict mode the base-measure vector is built by the same key list as the quality vector
   sensitivity-flag    mwem+pgm's selection uses sensitivity 2 under bounded adjacency, 1 otherwise
+  noiseless-limit     a branch of its own for epsilon == inf draws uniformly from the candidates of maximal quality
   forwards-eps        generalized_exponential_mechanism hands its epsilon on unchanged with sensitivity 1
 Noise helpers:
   scale-helper        laplace_noise_scale == (2 if bounded else 1) * l1 / eps ;  gaussian_noise_scale == (2 if bounded else 1) * l2 * sigma(eps, delta)
@@ -182,6 +183,8 @@ def run(ctx):
     check_inputs_unmodified(ctx)
     check_signatures(ctx)
     check_pareto(ctx)
+    for spec in PRIMS:
+        check_noiseless_limit(ctx, repo.func(spec['rel'], spec['q']), spec)
 
 
 # positional parameters of the selection / noise primitives as callers know them: (name, default or None)
@@ -232,6 +235,59 @@ def check_signatures(ctx):
                '%s: positional callers bind (%s); %s' % (q, ', '.join(p for p, _ in want), '; '.join(bad) or 'positions and defaults kept'),
                construct='signature of ' + q)
     ctx.counters['signatures'] = n
+
+
+def check_noiseless_limit(ctx, fi, spec):
+    """An exponential mechanism that answers an infinite epsilon in a branch of its own (instead of letting the softmax saturate) must draw from
+    the LIMIT of the distribution it implements: uniform over the candidates of maximal quality.  Recognised: `p = (q == q.max())` as floats,
+    divided by its sum.  Reported: all the mass on `q.argmax()` (the FIRST maximiser - ties are then never chosen, unlike at any finite
+    epsilon) or a bare `return q.argmax()`.  No such branch: nothing to check."""
+    q, eps = spec['quality'], spec['eps']
+    for n in ast.walk(fi.node):
+        if not (isinstance(n, ast.If) and isinstance(n.test, ast.Compare) and len(n.test.ops) == 1 and isinstance(n.test.ops[0], ast.Eq)):
+            continue
+        sides = [U(n.test.left), U(n.test.comparators[0])]
+        if eps not in sides or not any(x in ('np.inf', 'numpy.inf', 'math.inf', "float('inf')") for x in sides):
+            continue
+        rets = [r for st in n.body for r in ast.walk(st) if isinstance(r, ast.Return) and r.value is not None]
+        if not rets:
+            continue          # the branch only adjusts epsilon and falls through to the softmax
+        defs = {}
+        for st in n.body:
+            for a in ast.walk(st):
+                if isinstance(a, ast.Assign) and len(a.targets) == 1 and isinstance(a.targets[0], ast.Name):
+                    defs.setdefault(a.targets[0].id, []).append(a.value)
+        stores = [a for st in n.body for a in ast.walk(st) if isinstance(a, ast.Assign) and isinstance(a.targets[0], ast.Subscript)]
+        for r in rets:
+            v = r.value
+            t = U(v).replace(' ', '')
+            if t in ('%s.argmax()' % q, 'np.argmax(%s)' % q):
+                ctx.ob('noiseless-limit', fi, r, False, 'the limit of the mechanism for an infinite epsilon is uniform over the candidates of maximal quality; '
+                       '`%s` always answers the first of them' % U(v), construct='infinite-epsilon branch of ' + fi.name)
+                continue
+            p = next((k.value for k in v.keywords if k.arg == 'p'), None) if isinstance(v, ast.Call) and U(v.func).endswith('choice') else None
+            if p is None:
+                raise AnalysisError('%s: the infinite-epsilon branch returns `%s`, which is in no recognised form' % (fi.qualname, U(v)[:80]))
+            normalised = False
+            if isinstance(p, ast.BinOp) and isinstance(p.op, ast.Div) and U(p.right).replace(' ', '') in ('%s.sum()' % U(p.left), 'np.sum(%s)' % U(p.left)):
+                p, normalised = p.left, True
+            base = defs.get(p.id, [None])[0] if isinstance(p, ast.Name) and len(defs.get(p.id, [])) == 1 else p
+            bt = U(base).replace(' ', '') if base is not None else ''
+            maxq = ('%s==%s.max()' % (q, q), '%s==np.max(%s)' % (q, q), '%s>=%s.max()' % (q, q))
+            indicator = any(bt in ('(%s).astype(float)' % m, '(%s)*1.0' % m, 'np.where(%s,1.0,0.0)' % m, '(%s).astype(np.float64)' % m) for m in maxq)
+            onehot = bt in ('np.zeros(%s.size)' % q, 'np.zeros(len(%s))' % q, 'np.zeros_like(%s)' % q, 'np.zeros_like(%s,dtype=float)' % q) and any(
+                isinstance(a.targets[0].value, ast.Name) and isinstance(p, ast.Name) and a.targets[0].value.id == p.id and
+                U(a.targets[0].slice).replace(' ', '') in ('%s.argmax()' % q, 'np.argmax(%s)' % q) for a in stores)
+            if indicator:
+                ctx.ob('noiseless-limit', fi, r, normalised, 'infinite epsilon: uniform over the candidates of maximal quality (`%s`%s)'
+                       % (U(base)[:60], ', normalised' if normalised else ', NOT normalised: the probabilities do not sum to one when qualities tie'),
+                       construct='infinite-epsilon branch of ' + fi.name)
+            elif onehot:
+                ctx.ob('noiseless-limit', fi, r, False, 'the limit of the mechanism for an infinite epsilon is uniform over the candidates of maximal quality; '
+                       'the source puts all the mass on `%s.argmax()`, the FIRST of them: tied candidates are never chosen, unlike at any finite epsilon' % q,
+                       construct='infinite-epsilon branch of ' + fi.name)
+            else:
+                raise AnalysisError('%s: the distribution drawn from in the infinite-epsilon branch, `%s`, is in no recognised form' % (fi.qualname, U(base)[:80]))
 
 
 def check_pareto(ctx):
